@@ -53,38 +53,43 @@ def mkObj (kvs : List (String × J)) : J :=
 
 /-! ### json::dumpToString(out, indent = "", currentIndent = "") -/
 
-def escChar (c : Char) : String :=
-  if c = '"' then "\\\""
-  else if c = '\\' then "\\\\"
-  else if c = '\x08' then "\\b"
-  else if c = '\x0c' then "\\f"
-  else if c = '\n' then "\\n"
-  else if c = '\r' then "\\r"
-  else if c = '\t' then "\\t"
-  else String.singleton c
+/-- the escape of one character inside a JSON string -/
+def escCharL (c : Char) : List Char :=
+  if c = '"' then ['\\', '"']
+  else if c = '\\' then ['\\', '\\']
+  else if c = '\x08' then ['\\', 'b']
+  else if c = '\x0c' then ['\\', 'f']
+  else if c = '\n' then ['\\', 'n']
+  else if c = '\r' then ['\\', 'r']
+  else if c = '\t' then ['\\', 't']
+  else [c]
 
-def escape (s : String) : String := String.join (s.toList.map escChar)
+def escL (s : List Char) : List Char := s.flatMap escCharL
 
 mutual
-/-- the text json::hash() hashes -/
-def dump : J → String
-  | .none => ""
-  | .null => "null"
-  | .lit t => t
-  | .str s => "\"" ++ escape s ++ "\""
-  | .arr xs => "[" ++ dumpArr xs ++ "]"
-  | .obj kvs => "{" ++ dumpObj kvs ++ "}"
-def dumpArr : List J → String
-  | [] => ""
-  | x :: t => dump x ++ (if t.isEmpty then "" else ", ") ++ dumpArr t
+/-- the characters json::dumpToString appends for a value -/
+def dumpL : J → List Char
+  | .none => []
+  | .null => ['n', 'u', 'l', 'l']
+  | .lit t => t.toList
+  | .str s => '"' :: (escL s.toList ++ ['"'])
+  | .arr xs => '[' :: (dumpArrL xs ++ [']'])
+  | .obj kvs => '{' :: (dumpObjL kvs ++ ['}'])
+def dumpArrL : List J → List Char
+  | [] => []
+  | x :: t => dumpL x ++ ((if t.isEmpty then [] else [',', ' ']) ++ dumpArrL t)
 /-- members are written `"key": value`; the key is NOT escaped; an uninitialised member is
     written `{}` ("Temporary until jsonRef") -/
-def dumpObj : List (String × J) → String
-  | [] => ""
+def dumpObjL : List (String × J) → List Char
+  | [] => []
   | (k, v) :: t =>
-    "\"" ++ k ++ "\": " ++ (match v with | .none => "{}" | v => dump v)
-      ++ (if t.isEmpty then "" else ", ") ++ dumpObj t
+    '"' :: (k.toList ++ ('"' :: ':' :: ' ' ::
+      ((match v with | .none => ['{', '}'] | v => dumpL v)
+        ++ ((if t.isEmpty then [] else [',', ' ']) ++ dumpObjL t))))
 end
+
+/-- the text json::hash() hashes -/
+def dump (j : J) : String := String.ofList (dumpL j)
 
 /-! ### configurations -/
 
